@@ -25,7 +25,7 @@ _MEM = ['props.c13', 'props.c14', 'props.c15', 'props.c16']    # the memory path
 PROP_MODULES = {
     'C01': ['props.step'] + _DEP, 'C02': ['props.step', 'props.c13', 'props.c16', 'props.c03'] + _DEP, 'C03': ['props.c03', 'props.c13', 'props.c16'] + _DEP, 'C04': ['props.step'] + _DEP,
     'C05': ['props.c05'] + _DEP, 'C06': ['props.step', 'props.tablecheck'] + _DEP, 'C07': ['props.step', 'props.tablecheck'] + _DEP, 'C08': ['props.c08', 'props.c05', 'props.c11'] + _DEP,
-    'C09': ['props.step'] + _DEP, 'C10': ['props.c10', 'props.c17'], 'C11': ['props.c11', 'props.step'] + _DEP, 'C12': ['props.c12', 'props.c11', 'props.c03'] + _DEP,
+    'C09': ['props.step'] + _DEP, 'C10': ['props.c10', 'props.c17', 'props.c03'], 'C11': ['props.c11', 'props.step'] + _DEP, 'C12': ['props.c12', 'props.c11', 'props.c03'] + _DEP,
     'C13': ['props.c13', 'props.c16', 'props.step'] + _DEP, 'C15': ['props.c15', 'props.c13'], 'C20': ['props.c20'] + _MEM + _DEP, 'C14': ['props.c14', 'props.c13', 'props.c03', 'props.step'] + _DEP, 'C16': ['props.c16'], 'C17': ['props.c17'], 'C18': ['props.step'] + _MEM + _DEP, 'C19': ['props.step', 'props.c12'] + _MEM + _DEP,
 }
 
